@@ -100,8 +100,11 @@ class Evaluator:
         return v
 
     def read_cell(self, st, arr, idxs):
-        v = self.select(st, arr, idxs)
-        v = z3.simplify(v) if not z3.is_app(v) or v.num_args() < 0 else v
+        v = z3.simplify(self.select(st, arr, idxs))
+        if z3.is_int_value(v):
+            return v.as_long()
+        if z3.is_true(v) or z3.is_false(v):
+            return z3.is_true(v)
         if arr.dtype in DTYPE_RANGE and not st.spec:
             lo, hi = DTYPE_RANGE[arr.dtype]
             st.pc.append(z3.And(v >= lo, v <= hi))
@@ -630,7 +633,22 @@ class Evaluator:
         raise Unsupported(f"subscript of {type(base).__name__} (line {self.line})")
 
     def mask_filter(self, st, base, mask):
-        raise Unsupported("boolean mask filtering")
+        """a[mask] for 1-D a: a fresh array whose elements are exactly the elements of `a` selected by the mask (order not modelled)"""
+        src = self.to_aexpr(st, base)
+        if src.ndim != 1 or mask.ndim != 1:
+            raise Unsupported("boolean mask filtering of a non 1-D array")
+        n = src.shape[0]
+        if isinstance(n, int):
+            raise Unsupported("mask filter in unroll mode")
+        obj = ArrObj("filtered", src.dtype, [fresh_int("nf")])
+        term = obj.fresh_term()
+        st.heap[obj.id] = term
+        nf = obj.shape[0]
+        j, i = z3.Int(fresh_name("j")), z3.Int(fresh_name("i"))
+        st.pc.append(z3.And(nf >= 0, nf <= n))
+        st.pc.append(z3.ForAll([j], z3.Implies(z3.And(j >= 0, j < nf), z3.Exists([i], z3.And(i >= 0, i < n, zbool(truth(mask.fn([i]))), z3.Select(term, j) == zint(src.fn([i])))))))
+        st.pc.append(z3.ForAll([i], z3.Implies(z3.And(i >= 0, i < n, zbool(truth(mask.fn([i])))), z3.Exists([j], z3.And(j >= 0, j < nf, z3.Select(term, j) == zint(src.fn([i])))))))
+        return Arr(obj)
 
     def e_Attribute(self, node, st):
         v = self.eval(node.value, st)
